@@ -2,12 +2,14 @@ package c12
 
 import (
 	"crypto/tls"
+	"errors"
 	"fmt"
 	"net"
 	"os"
 	"path/filepath"
 	"strings"
 	"sync"
+	"syscall"
 	"testing"
 	"time"
 
@@ -23,10 +25,13 @@ import (
 func TestMain(m *testing.M) { hx.Main(m) }
 
 type spec struct {
-	Kind  string `json:"kind"` // listener | dialer | socket | qlen0 | reject
+	Kind  string `json:"kind"` // listener | dialer | socket | qlen0 | reject | pairbusy | wrongproto
 	Tran  string `json:"tran,omitempty"`
 	Err   string `json:"err,omitempty"`
 	Proto string `json:"proto,omitempty"`
+	// wrongproto: Proto is the protocol of the endpoint under test (Err = listen: the listening
+	// socket, Err = dial: the dialing socket), Stranger a protocol it cannot talk to.
+	Stranger string `json:"stranger,omitempty"`
 }
 
 var listenerErrs = []string{"inuse", "twice", "closed", "badaddr", "tls-noconfig", "tls-nocert", "badpeer"}
@@ -72,6 +77,22 @@ func TestC12(t *testing.T) {
 			cases = append(cases, mon.CaseSpec{Name: "qlen0/" + p, Spec: spec{Kind: "qlen0", Proto: p}})
 		}
 	}
+	// connections refused for a protocol mismatch, then a matched peer on the same endpoint: appended
+	// after the catalogue so that the indices of the older cases stay what they were
+	rnd := r.Rand()
+	for rep := 0; rep < reps; rep++ {
+		for _, tr := range trans {
+			for _, side := range []string{"listen", "dial"} {
+				p := hx.AllProtos[rnd.Intn(len(hx.AllProtos))]
+				if p[0] == 'x' { // the raw variants only get as far as attaching: draw again, once
+					p = hx.AllProtos[rnd.Intn(len(hx.AllProtos))]
+				}
+				st := pickStranger(rnd, p)
+				cases = append(cases, mon.CaseSpec{Name: "wrongproto/" + tr + "/" + side + "/" + p + "-vs-" + st,
+					Spec: spec{Kind: "wrongproto", Tran: tr, Err: side, Proto: p, Stranger: st}})
+			}
+		}
+	}
 	r.Run(cases, func(c *mon.Case) {
 		sp := c.Spec.(spec)
 		switch sp.Kind {
@@ -87,8 +108,14 @@ func TestC12(t *testing.T) {
 			runReject(c, sp)
 		case "pairbusy":
 			runPairBusy(c, sp)
+		case "wrongproto":
+			if sp.Err == "listen" {
+				runWrongProtoListen(c, sp)
+			} else {
+				runWrongProtoDial(c, sp)
+			}
 		}
-		c.Sig("%s|%s|%s|%s", sp.Kind, sp.Tran, sp.Err, sp.Proto)
+		c.Sig("%s|%s|%s|%s%s", sp.Kind, sp.Tran, sp.Err, sp.Proto, sp.Stranger)
 	})
 }
 
@@ -155,6 +182,63 @@ func exchange(c *mon.Case, ctx string, a, b mangos.Socket) bool {
 			if ok {
 				c.Violate("unusable:"+ctx+"/recv", "%s: Recv returned %q, %v; want %q", ctx, got, err, msg)
 			}
+			return false
+		}
+	}
+	return true
+}
+
+// exchangeResending is exchange for two PAIR sockets whose connection may still be replaced: the
+// side that did not reject can itself turn a connection away while it has not yet noticed that
+// the previous one is gone (PAIR keeps one peer), so a message sent into that connection is lost,
+// legitimately, and the dialer connects again.  The message is therefore sent again whenever the
+// sender has seen a new connection attach since; what must not happen is that nothing arrives and
+// nothing moves any more.  attA/attB count the connections attached so far at a and at b.
+func exchangeResending(c *mon.Case, ctx string, a, b mangos.Socket, attA, attB func() int) bool {
+	type end struct {
+		s   mangos.Socket
+		att func() int
+	}
+	for i, dir := range [][2]end{{{a, attA}, {b, attB}}, {{b, attB}, {a, attA}}} {
+		from, to := dir[0], dir[1]
+		msg := fmt.Sprintf("ping-%d-%s", i, hx.Uniq("x"))
+		rk := mon.Go("Recv", func() (interface{}, error) {
+			for { // copies of a message that was sent again
+				m, e := to.s.Recv()
+				if e != nil || string(m) == msg {
+					return m, e
+				}
+			}
+		})
+		for attempt := 0; !rk.Done(); attempt++ {
+			if attempt == 50 {
+				c.Inconclusive("%s: the connection was replaced %d times while a message was on its way", ctx, attempt)
+				return false
+			}
+			if attempt > 0 {
+				c.Count("resent_after_reconnect", 1)
+			}
+			a0 := from.att()
+			if err, ok := call(c, ctx, "Send", 0, func() error { return from.s.Send([]byte(msg)) }); !ok || err != nil {
+				if ok {
+					c.Violate("unusable:"+ctx+"/send", "%s: Send on a connected PAIR socket failed: %v", ctx, err)
+				}
+				return false
+			}
+			r := mon.Await(func() bool { return rk.Done() || from.att() > a0 }, mon.AwaitOpts{MaxTimer: 5 * time.Millisecond, Ignore: []string{"internal/core.(*dialer)"}})
+			switch r.V {
+			case mon.Done:
+			case mon.Stuck:
+				c.Violate("wedged:"+ctx+"/Recv", "%s: Recv returning: stuck after %v — every goroutine parked, identical over %d samples:\n%s", ctx, r.Waited, 5, r.Dump)
+				return false
+			default:
+				c.Inconclusive("%s: Recv returning: not done after %v, process still active", ctx, r.Waited)
+				return false
+			}
+		}
+		c.Count("followup_calls", 1)
+		if got, err, _ := rk.Result(); err != nil || string(got.([]byte)) != msg {
+			c.Violate("unusable:"+ctx+"/recv", "%s: Recv returned %q, %v; want %q", ctx, got, err, msg)
 			return false
 		}
 	}
@@ -311,6 +395,13 @@ func runListener(c *mon.Case, sp spec) {
 			return
 		}
 		if e != nil {
+			if sp.Err == "inuse" && tr != "ipc" && tr != "inproc" && tr != "vt" && errors.Is(e, syscall.EADDRINUSE) {
+				// the operating system still refuses the bind: on a shared machine somebody else's
+				// listener can be given the ephemeral port in the moment it is free, so the cause
+				// of the failure is not known to have been removed
+				c.Inconclusive("%s: after the blocking listener was closed the operating system still reports the address in use (%v): taken by another process?", ctx, e)
+				return
+			}
 			c.Violate("retry-failed:"+ctx, "the cause of the failed Listen (%v) was corrected but Listen on the same listener still fails: %v", e1, e)
 			return
 		}
@@ -524,6 +615,16 @@ func runDialer(c *mon.Case, sp spec) {
 	c.Count("errors_provoked", 1)
 	c.Count("locks_probed", hx.ProbeLocks(c, "lock-held:"+ctx+":", ctx+" right after the failed Dial", cli, d))
 	if wantErr && e1 == nil {
+		if sp.Err == "refused" && tr != "ipc" && tr != "inproc" && tr != "vt" {
+			// nothing of ours listens at the port, but on a shared machine somebody else's listener
+			// can have been given it since it was found free: a Dial that really connected (a pipe
+			// attached) did not fail to fail
+			r := mon.Await(func() bool { return wc.Attached() >= 1 }, mon.AwaitOpts{MaxTimer: maxT, Ignore: []string{"internal/core.(*dialer)"}})
+			if r.V != mon.Stuck {
+				c.Inconclusive("%s: the port found unused (%s) accepted the connection (%v): taken by another process?", ctx, addr, r.V)
+				return
+			}
+		}
 		c.Violate("no-error:"+ctx, "Dial succeeded although it must fail (%s)", sp.Err)
 		return
 	}
@@ -723,6 +824,9 @@ func carryOn(c *mon.Case, ctx, p string, s mangos.Socket) bool {
 	s.SetOption(mangos.OptionSendDeadline, time.Duration(0))
 	s.SetOption(mangos.OptionRetryTime, time.Hour)
 	peer := hx.MustSock(c, hx.PeerOf[p])
+	// the reply must not race the survey's expiry on a loaded machine (the default is one second)
+	s.SetOption(mangos.OptionSurveyTime, time.Hour)
+	peer.SetOption(mangos.OptionSurveyTime, time.Hour)
 	if p == "sub" || p == "pub" {
 		s.SetOption(mangos.OptionSubscribe, []byte{})
 		peer.SetOption(mangos.OptionSubscribe, []byte{})
@@ -735,6 +839,12 @@ func carryOn(c *mon.Case, ctx, p string, s mangos.Socket) bool {
 	if !hx.WaitAttached(c, ws, 1, "carry-on peer (socket side)") || !hx.WaitAttached(c, wp, 1, "carry-on peer (peer side)") {
 		return false
 	}
+	return converse(c, ctx, p, s, peer)
+}
+
+// converse runs one exchange in each direction the pattern of p (the protocol of s) has, between
+// two connected cooked sockets whose pipes have attached on both sides.
+func converse(c *mon.Case, ctx, p string, s, peer mangos.Socket) bool {
 	xfer := func(from, to mangos.Socket, what string) bool {
 		msg := []byte("carry-on-" + hx.Uniq("m"))
 		rk := mon.Go("Recv", func() (interface{}, error) {
@@ -878,7 +988,14 @@ func runReject(c *mon.Case, sp spec) {
 			attached++
 		}
 	}
-	counter := func(ev mangos.PipeEvent, p mangos.Pipe) {}
+	otherAttached := 0
+	counter := func(ev mangos.PipeEvent, p mangos.Pipe) {
+		if ev == mangos.PipeEventAttached {
+			mu.Lock()
+			otherAttached++
+			mu.Unlock()
+		}
+	}
 	if side == "listen" {
 		srv.SetPipeEventHook(rejecter)
 		cli.SetPipeEventHook(counter)
@@ -902,7 +1019,9 @@ func runReject(c *mon.Case, sp spec) {
 	if side == "dial" {
 		first, second = cli, srv
 	}
-	if !exchange(c, ctx, first, second) {
+	attFirst := func() int { mu.Lock(); defer mu.Unlock(); return attached }
+	attSecond := func() int { mu.Lock(); defer mu.Unlock(); return otherAttached }
+	if !exchangeResending(c, ctx, first, second, attFirst, attSecond) {
 		return
 	}
 	c.Count("locks_probed", hx.ProbeLocks(c, "lock-held:"+ctx+":", ctx, srv, cli))
@@ -1084,9 +1203,363 @@ func runPairBusy(c *mon.Case, sp spec) {
 	if !c.AwaitOrViolate("not-carrying-on:"+ctx, ctx+": the dialer that had been refused connecting once the first peer has gone", func() bool { return wa.Live() == 1 && wa.Attached() >= 2 }, mon.AwaitOpts{MaxTimer: 5 * time.Millisecond, Ignore: []string{"internal/core.(*dialer)"}}) {
 		return
 	}
-	if !exchange(c, ctx, a, b2) {
+	if !exchangeResending(c, ctx, a, b2, wa.Attached, w2.Attached) {
 		return
 	}
 	c.Count("locks_probed", hx.ProbeLocks(c, "lock-held:"+ctx+":", ctx, a, d2))
+	c.Nontrivial()
+}
+
+// ---------------------------------------------------------------------------
+// connections refused because the two ends speak protocols that do not go together
+
+func baseProto(p string) string { return strings.TrimPrefix(p, "x") }
+
+// speaks reports whether a socket of protocol a and one of protocol b accept each other.
+func speaks(a, b string) bool { return baseProto(hx.PeerOf[a]) == baseProto(b) }
+
+// pickStranger draws a protocol that cannot talk to p.
+func pickStranger(rnd interface{ Intn(int) int }, p string) string {
+	var cand []string
+	for _, q := range hx.AllProtos {
+		if !speaks(p, q) {
+			cand = append(cand, q)
+		}
+	}
+	return cand[rnd.Intn(len(cand))]
+}
+
+// tune takes the protocol timers out of the picture and opens the subscription.
+func tune(s mangos.Socket, p string) {
+	switch baseProto(p) {
+	case "req":
+		s.SetOption(mangos.OptionRetryTime, time.Hour)
+	case "surveyor":
+		s.SetOption(mangos.OptionSurveyTime, time.Hour)
+	case "sub":
+		s.SetOption(mangos.OptionSubscribe, []byte{})
+	}
+}
+
+// Reconnect times of the dialers in the wrongproto cases.  A stream listener's accept loop pauses
+// 10 ms after every failed handshake, so the strangers that keep knocking in the background (at
+// most two per case) do so slowly enough for it to keep up: the cases are about a listener that
+// stops accepting, not about one that is kept busy.
+const (
+	knockEvery  = 5 * time.Millisecond
+	knockSlowly = 40 * time.Millisecond
+)
+
+var wrongProtoWait = mon.AwaitOpts{MaxTimer: knockSlowly, Ignore: []string{"internal/core.(*dialer).redial"}}
+
+func endpointFollowups(c *mon.Case, ctx, who string, get func(string) (interface{}, error), set func(string, interface{}) error, address func() string) bool {
+	for _, fu := range []struct {
+		n string
+		f func() error
+	}{
+		{who + ".GetOption(MaxRecvSize)", func() error { _, e := get(mangos.OptionMaxRecvSize); return e }},
+		{who + ".SetOption(MaxRecvSize)", func() error { return set(mangos.OptionMaxRecvSize, 65536) }},
+		{who + ".GetOption(bogus)", func() error { _, e := get("no-such-option"); return e }},
+		{who + ".Address", func() error { _ = address(); return nil }},
+	} {
+		if _, ok := call(c, ctx, fu.n, knockSlowly, fu.f); !ok {
+			return false
+		}
+	}
+	return true
+}
+
+// runWrongProtoListen: sockets of a protocol the listener cannot talk to dial it and are refused —
+// once, repeatedly, or for as long as the case runs.  None of that may cost the listener anything:
+// every matched peer that dials afterwards is accepted and served.
+func runWrongProtoListen(c *mon.Case, sp spec) {
+	tr, p := sp.Tran, sp.Proto
+	ctx := "wrongproto/" + tr + "/listen"
+	srv := hx.MustSock(c, p)
+	tune(srv, p)
+	ws := hx.WatchPipes(srv)
+	l, err := srv.NewListener(hx.ListenAddr(tr), lopts(tr))
+	if err != nil {
+		c.Inconclusive("setup "+ctx+": NewListener: %v", err)
+		return
+	}
+	if e, ok := call(c, ctx, "Listen", 0, l.Listen); !ok || e != nil {
+		if ok {
+			c.Inconclusive("setup "+ctx+": Listen: %v", e)
+		}
+		return
+	}
+	addr := l.Address()
+	probe := []interface{}{srv, l}
+	script := ""
+	refusals, knockers := 0, 0
+
+	// knock: one stranger is refused (a synchronous Dial, so the refusal is known to have happened),
+	// then goes away, stays around, or keeps knocking in the background.
+	knock := func(sproto string) bool {
+		st := hx.MustSock(c, sproto)
+		st.SetOption(mangos.OptionReconnectTime, knockEvery)
+		st.SetOption(mangos.OptionMaxReconnectTime, knockEvery)
+		d, e := st.NewDialer(addr, dopts(tr))
+		if e != nil {
+			c.Inconclusive("setup "+ctx+": stranger NewDialer: %v", e)
+			return false
+		}
+		times := 1 + c.Rand.Intn(2)
+		for i := 0; i < times; i++ {
+			// the first refusal is the provoked error; a later mismatched Dial that never returns means
+			// the listener has stopped answering
+			sig, what := "wedged:"+ctx+"/stranger.Dial", ctx+": the Dial of a mismatched "+sproto+" socket returning"
+			if refusals > 0 {
+				sig = "not-accepting:" + ctx + "/mismatched-dial-stuck-after-refusal"
+				what = fmt.Sprintf("%s: the Dial of a mismatched %s socket returning (the %s listener refused %d connections before: [%s])", ctx, sproto, p, refusals, fmt.Sprintf("%s%s*%d...", script, sproto, i))
+			}
+			k := mon.Go("stranger.Dial", func() (interface{}, error) { return nil, d.Dial() })
+			if !c.AwaitOrViolate(sig, what, k.Done, wrongProtoWait) {
+				return false
+			}
+			_, e, _ := k.Result()
+			c.Count("followup_calls", 1)
+			c.Logf("%s: stranger.Dial (%s) -> %v", ctx, sproto, e)
+			if e == nil {
+				c.Inconclusive("%s: a %s socket dialing the %s listener was not refused: the situation did not arise", ctx, sproto, p)
+				return false
+			}
+			refusals++
+			c.Count("errors_provoked", 1)
+			c.Count("mismatched_dials_refused", 1)
+		}
+		if !endpointFollowups(c, ctx, "stranger-dialer", d.GetOption, d.SetOption, d.Address) {
+			return false
+		}
+		mode := []string{"leaves", "stays", "keeps-knocking"}[c.Rand.Intn(3)]
+		if mode == "keeps-knocking" && knockers >= 2 {
+			mode = "stays"
+		}
+		script += fmt.Sprintf("%s*%d:%s ", sproto, times, mode)
+		switch mode {
+		case "leaves":
+			if _, ok := call(c, ctx, "stranger.Close", knockSlowly, st.Close); !ok {
+				return false
+			}
+		case "stays":
+			probe = append(probe, st, d)
+		case "keeps-knocking":
+			st.SetOption(mangos.OptionReconnectTime, knockSlowly)
+			st.SetOption(mangos.OptionMaxReconnectTime, knockSlowly)
+			st.SetOption(mangos.OptionDialAsynch, true)
+			d2, e := st.NewDialer(addr, dopts(tr))
+			if e != nil {
+				c.Inconclusive("setup "+ctx+": stranger NewDialer: %v", e)
+				return false
+			}
+			if e, ok := call(c, ctx, "stranger.Dial(asynch)", knockSlowly, d2.Dial); !ok || e != nil {
+				if ok {
+					c.Violate("wrong-error:"+ctx+"/asynch-dial", "asynchronous Dial of a %s socket to the %s listener returned %v", sproto, p, e)
+				}
+				return false
+			}
+			knockers++
+			c.Count("background_knockers", 1)
+		}
+		return true
+	}
+
+	// admit: a matched peer dials and must be accepted; the first one also converses.
+	admitted := 0
+	admit := func() bool {
+		gp := hx.PeerOf[p]
+		cli := hx.MustSock(c, gp)
+		tune(cli, gp)
+		cli.SetOption(mangos.OptionReconnectTime, knockEvery)
+		cli.SetOption(mangos.OptionMaxReconnectTime, knockEvery)
+		wc := hx.WatchPipes(cli)
+		asynch := c.Rand.Intn(3) == 0
+		if asynch {
+			cli.SetOption(mangos.OptionDialAsynch, true)
+		}
+		script += fmt.Sprintf("good(asynch=%v) ", asynch)
+		gd, e := cli.NewDialer(addr, dopts(tr))
+		if e != nil {
+			c.Inconclusive("setup "+ctx+": NewDialer: %v", e)
+			return false
+		}
+		k := mon.Go("matched.Dial", func() (interface{}, error) { return nil, gd.Dial() })
+		if !c.AwaitOrViolate("not-accepting:"+ctx+"/matched-dial-stuck",
+			fmt.Sprintf("%s: the Dial of a matched %s peer returning, after the %s listener refused [%s]", ctx, gp, p, script), k.Done, wrongProtoWait) {
+			return false
+		}
+		if _, e, _ := k.Result(); e != nil {
+			c.Violate("not-accepting:"+ctx+"/matched-dial-failed", "%s: a matched %s peer dialing the %s listener got %v after the listener refused [%s]", ctx, gp, p, e, script)
+			return false
+		}
+		admitted++
+		n := admitted
+		if !c.AwaitOrViolate("not-accepting:"+ctx+"/matched-peer-never-attached",
+			fmt.Sprintf("%s: matched peer #%d (%s) attaching on both sides, after the %s listener refused [%s]", ctx, n, gp, p, script),
+			func() bool { return ws.Attached() >= n && wc.Attached() >= 1 }, wrongProtoWait) {
+			return false
+		}
+		c.Count("matched_peers_admitted", 1)
+		probe = append(probe, cli, gd)
+		if n == 1 && p[0] != 'x' {
+			if !converse(c, ctx, p, srv, cli) {
+				return false
+			}
+		}
+		return true
+	}
+
+	strangers := 1 + c.Rand.Intn(3)
+	for i := 0; i < strangers; i++ {
+		sproto := sp.Stranger
+		if i > 0 {
+			sproto = pickStranger(c.Rand, p)
+		}
+		if !knock(sproto) {
+			return
+		}
+	}
+	c.Count("locks_probed", hx.ProbeLocks(c, "lock-held:"+ctx+":", ctx+" right after the refused connections", probe...))
+	if !endpointFollowups(c, ctx, "listener", l.GetOption, l.SetOption, l.Address) {
+		return
+	}
+	if !admit() {
+		return
+	}
+	// a listener that takes several peers goes through it once more
+	if b := baseProto(p); b != "pair" && b != "pair1" && c.Rand.Intn(2) == 0 {
+		if !knock(pickStranger(c.Rand, p)) || !admit() {
+			return
+		}
+	}
+	c.Logf("script: %s", script)
+	c.Count("locks_probed", hx.ProbeLocks(c, "lock-held:"+ctx+":", ctx, probe...))
+	if _, ok := call(c, ctx, "Close-final", knockSlowly, func() error { l.Close(); return nil }); !ok {
+		return
+	}
+	if _, ok := call(c, ctx, "socket.Close", knockSlowly, srv.Close); !ok {
+		return
+	}
+	c.Nontrivial()
+}
+
+// runWrongProtoDial: a dialer is refused because the listener at its address speaks a protocol it
+// cannot talk to.  The cause is corrected (a matched listener takes over the address); the same
+// dialer — retried by hand or redialling on its own — must connect, and the socket converses.
+func runWrongProtoDial(c *mon.Case, sp spec) {
+	tr, p := sp.Tran, sp.Proto
+	ctx := "wrongproto/" + tr + "/dial"
+	cli := hx.MustSock(c, p)
+	tune(cli, p)
+	cli.SetOption(mangos.OptionReconnectTime, knockEvery)
+	cli.SetOption(mangos.OptionMaxReconnectTime, knockEvery)
+	wc := hx.WatchPipes(cli)
+	wrong := hx.MustSock(c, sp.Stranger)
+	wl, err := wrong.NewListener(hx.ListenAddr(tr), lopts(tr))
+	if err == nil {
+		err = wl.Listen()
+	}
+	if err != nil {
+		c.Inconclusive("setup "+ctx+": the mismatched listener: %v", err)
+		return
+	}
+	addr := wl.Address()
+	d, err := cli.NewDialer(addr, dopts(tr))
+	if err != nil {
+		c.Inconclusive("setup "+ctx+": NewDialer(%s): %v", addr, err)
+		return
+	}
+	times := 1 + c.Rand.Intn(3)
+	var e1 error
+	for i := 0; i < times; i++ {
+		name := "Dial"
+		if i > 0 {
+			name = "Dial-again-after-refusal"
+		}
+		e, ok := call(c, ctx, name, knockSlowly, d.Dial)
+		if !ok {
+			return
+		}
+		if e == nil {
+			c.Inconclusive("%s: a %s socket dialing a %s listener was not refused: the situation did not arise", ctx, p, sp.Stranger)
+			return
+		}
+		e1 = e
+		c.Count("errors_provoked", 1)
+		c.Count("mismatched_dials_refused", 1)
+	}
+	c.Count("locks_probed", hx.ProbeLocks(c, "lock-held:"+ctx+":", ctx+" right after the refused Dial", cli, d, wrong, wl))
+	if !endpointFollowups(c, ctx, "dialer", d.GetOption, d.SetOption, d.Address) {
+		return
+	}
+	asynch := c.Rand.Intn(2) == 0
+	c.Logf("refused %d times (%v); asynch=%v", times, e1, asynch)
+	if asynch {
+		// the dialer goes on knocking at the mismatched listener on its own
+		if e, ok := call(c, ctx, "SetOption(DialAsynch)", knockSlowly, func() error { return d.SetOption(mangos.OptionDialAsynch, true) }); !ok || e != nil {
+			if ok {
+				c.Violate("cannot-correct:"+ctx, "SetOption(DialAsynch) on the dialer after its refused Dial returned %v", e)
+			}
+			return
+		}
+		if e, ok := call(c, ctx, "Dial(asynch)", knockSlowly, d.Dial); !ok || e != nil {
+			if ok {
+				c.Violate("wrong-error:"+ctx+"/asynch-dial", "asynchronous Dial after %d refused synchronous ones (%v) returned %v", times, e1, e)
+			}
+			return
+		}
+		c.Count("background_knockers", 1)
+	}
+	// the cause is corrected: a matched listener takes over the address
+	if _, ok := call(c, ctx, "mismatched-listener.Close", knockSlowly, wl.Close); !ok {
+		return
+	}
+	if _, ok := call(c, ctx, "mismatched-socket.Close", knockSlowly, wrong.Close); !ok {
+		return
+	}
+	gp := hx.PeerOf[p]
+	right := hx.MustSock(c, gp)
+	tune(right, gp)
+	wr := hx.WatchPipes(right)
+	rl, err := right.NewListener(addr, lopts(tr))
+	if err != nil {
+		c.Inconclusive("setup "+ctx+": NewListener(%s) for the matched listener: %v", addr, err)
+		return
+	}
+	if e, ok := call(c, ctx, "matched-listener.Listen", knockSlowly, rl.Listen); !ok || e != nil {
+		if ok {
+			c.Inconclusive("setup "+ctx+": the matched listener cannot take over %s: %v", addr, e)
+		}
+		return
+	}
+	if !asynch {
+		e, ok := call(c, ctx, "Dial-retry", knockSlowly, d.Dial)
+		if !ok {
+			return
+		}
+		if e != nil {
+			c.Violate("retry-failed:"+ctx, "the cause of the refused Dial (%v: a %s listener at the address of a %s dialer) was corrected, but Dial on the same dialer fails: %v", e1, sp.Stranger, p, e)
+			return
+		}
+	}
+	if !c.AwaitOrViolate("not-connecting:"+ctx,
+		fmt.Sprintf("%s: the %s dialer (asynch=%v) connecting to the matched %s listener that replaced the %s one which had refused it %d times", ctx, p, asynch, gp, sp.Stranger, times),
+		func() bool { return wc.Attached() >= 1 && wr.Attached() >= 1 }, wrongProtoWait) {
+		return
+	}
+	c.Count("refused_dialers_connected", 1)
+	if p[0] != 'x' {
+		if !converse(c, ctx, p, cli, right) {
+			return
+		}
+	}
+	c.Count("locks_probed", hx.ProbeLocks(c, "lock-held:"+ctx+":", ctx, cli, d, right, rl))
+	if _, ok := call(c, ctx, "Close-final", knockSlowly, func() error { d.Close(); return nil }); !ok {
+		return
+	}
+	if _, ok := call(c, ctx, "socket.Close", knockSlowly, cli.Close); !ok {
+		return
+	}
 	c.Nontrivial()
 }
